@@ -164,7 +164,7 @@ def NoTies (md start : Int) (refs qs : List Lbl) : Prop :=
 
 /-! ### exact copies (C06) -/
 
-def defaultParams : Params := ⟨1000, 1, -250, 1500, 1000, 1200⟩
+-- `defaultParams` (the defaults of src/args.py) is defined in Coma/SegFactory.lean and tied to args.py by the DEFAULTS op
 
 /-- the trimmed query that is an exact copy of the reference window `win` (absolute
     coordinates), given on strand `rev` -/
